@@ -46,6 +46,7 @@ class Run(object):
         self.counts = {}
         self.notes = []
         self.extra = {}
+        self.analysis_errors = []
 
     # -- recording -------------------------------------------------------
     def rule(self, rid, doc):
@@ -69,6 +70,10 @@ class Run(object):
         if len(construct) > 160:
             construct = construct[:160]
         key = '%s|%s|%s' % (rule, base, construct)
+        # identical constructs in one function: number them in report order
+        dup = sum(1 for x in self.findings if x.key.split('#')[0] == key)
+        if dup:
+            key = '%s#%d' % (key, dup + 1)
         f = Finding(rule, where, construct, message, path, key)
         self.findings.append(f)
         self.obligations.append({'rule': rule, 'what': what or message,
@@ -105,6 +110,20 @@ class Run(object):
         self.fail(rule, finfo, finfo.node, message or ('required step missing: ' + what),
                   what='present: ' + what, construct='missing: ' + what)
         return False
+
+    def each(self, ctx, rules):
+        """Run rule functions one by one; an AnalysisError in one rule must not
+        hide violations found by the others."""
+        for r in rules:
+            try:
+                r(self, ctx)
+            except AnalysisError as e:
+                self.analysis_errors.append('%s: %s' % (r.__name__, e))
+            except Exception as e:   # a defect of the checker, never a violation
+                import traceback
+                tb = traceback.format_exc().strip().splitlines()
+                self.analysis_errors.append('%s: internal error %r at %s' % (
+                    r.__name__, e, ' | '.join(x.strip() for x in tb[-4:-1])))
 
     def note(self, text):
         self.notes.append(text)
@@ -170,6 +189,7 @@ class Run(object):
             'new_violations': [f.to_json() for f in new],
             'exhaustive': True,
             'notes': self.notes,
+            'analysis_errors': self.analysis_errors,
         }
         cov.update(self.extra)
         if self.project is not None:
@@ -208,4 +228,10 @@ class Run(object):
         self.new_findings = new
         self.matched = matched
         self.evidence = ev
-        return 1 if new else 0
+        if new:
+            return 1
+        if self.analysis_errors:
+            for e in self.analysis_errors:
+                print('ANALYSIS-ERROR property=%s %s' % (self.prop_id, e))
+            return 2
+        return 0
